@@ -22,7 +22,10 @@ RULE = (
     "regularity guard). (b) generated array compositions (vh/progs.py), same checks plus hessian symmetry. (c) scalar expression "
     "programs at order 3 and 4: every mode sequence in {rev, fwd}^k (all 2^k for k=3, 8 drawn for k=4) against the symbolic "
     "reference differentiator (1e-9 relative). Non-trivial = at least two mode sequences returned and the second derivative is "
-    "non-zero on the oracle side; distinct by (template, features) / program / expression."
+    "non-zero on the oracle side; distinct by (template, features) / program / expression. (d) zero_entries: 30 functions that are analytic "
+    "where some entries of the argument are exactly zero (powers with integer exponents, norms of vectors with a non-zero entry, products, "
+    "inactive maximum / where, ...) at points with a drawn subset of entries set to exactly 0.0: the same second-order checks (rules that "
+    "guard against zeros with where / replace_zero must still have the right derivative of their own)."
 )
 
 
@@ -342,12 +345,76 @@ def mixed_body(c):
     return ok(nontrivial=True, key=json.dumps(sample), labels=[f"m={m}", "modes=" + modes], sample=sample)
 
 
+# ---- second order at points with exactly-zero entries --------------------------------------------------------------------
+def zero_families():
+    """Functions that are analytic at points where some (not all) entries of the argument are exactly zero."""
+    W2 = onp.array([[0.5, -1.0, 2.0], [1.5, 0.25, -0.75], [0.3, 0.9, -0.4]])
+    return {
+        "square": lambda ns, x: ns.square(x), "x**2": lambda ns, x: x ** 2, "x**3": lambda ns, x: x ** 3, "power(x,2)": lambda ns, x: ns.power(x, 2),
+        "power(x,3.0)": lambda ns, x: ns.power(x, 3.0), "power(x,k)": lambda ns, x: ns.power(x, onp.array([2, 3, 1])[: x.shape[-1]]),
+        "x*x": lambda ns, x: x * x, "sin": lambda ns, x: ns.sin(x), "tanh*x": lambda ns, x: ns.tanh(x) * x, "exp": lambda ns, x: ns.exp(0.5 * x),
+        "norm2": lambda ns, x: ns.linalg.norm(ns.ravel(x), 2), "norm_default": lambda ns, x: ns.linalg.norm(x), "norm_ord3": lambda ns, x: ns.linalg.norm(ns.ravel(x), 3),
+        "norm2_axis": lambda ns, x: ns.linalg.norm(ns.reshape(x, (-1, x.shape[-1])), ord=2, axis=1) if x.ndim >= 1 else ns.abs(x),
+        "norm_axis_default": lambda ns, x: ns.linalg.norm(ns.reshape(x, (-1, x.shape[-1])), axis=-1),
+        "dot": lambda ns, x: ns.dot(ns.ravel(x), ns.ravel(x)), "outer": lambda ns, x: ns.outer(ns.ravel(x), ns.ravel(x)), "sum_sq": lambda ns, x: ns.sum(x * x, axis=-1),
+        "var": lambda ns, x: ns.var(x), "mean_sq": lambda ns, x: ns.mean(x) ** 2, "cumsum_sq": lambda ns, x: ns.cumsum(x, axis=-1) ** 2,
+        "matvec": lambda ns, x: ns.dot(W2[:, : x.shape[-1]], ns.ravel(x)[: x.shape[-1]]) ** 2, "einsum": lambda ns, x: ns.einsum("...i,...i->...", x, x),
+        "maximum_inactive": lambda ns, x: ns.maximum(x, -5.0) ** 2, "where": lambda ns, x: ns.where(x > -9.0, x * x, 0.0),
+        "hypot": lambda ns, x: ns.hypot(x, 1.5), "arctan2": lambda ns, x: ns.arctan2(x, 1.5), "logaddexp": lambda ns, x: ns.logaddexp(x, 0.3),
+        "multiply": lambda ns, x: ns.multiply(x, x + 1.0), "divide": lambda ns, x: x / (x * x + 1.0), "prod_shifted": lambda ns, x: ns.prod(x + 1.5, axis=-1),
+    }
+
+
+_ZF = {}
+
+
+def zero_entries_body(c):
+    import autograd.numpy as anp
+
+    if not _ZF:
+        _ZF.update(zero_families())
+    names = sorted(_ZF)
+    fam = names[c.int(0, len(names) - 1)]
+    f = _ZF[fam]
+    shape = c.choice([(3,), (2,), (2, 3), (3, 2)])
+    vseed = c.seed()
+    x0 = values.generic(vseed, [shape], -1.5, 1.5)[0][0]
+    n = x0.shape[-1]
+    rows = x0.reshape(-1, n)
+    nz = 0
+    for r in rows:  # zero out a drawn subset of each row, always keeping one entry
+        keep = c.int(0, n - 1)
+        for j in range(n):
+            if j != keep and c.bool():
+                r[j] = 0.0
+                nz += 1
+    if nz == 0:
+        rows[0][(c.int(0, n - 1))] = 0.0
+        if not rows[0].any():
+            rows[0][0] = 0.7
+    x0 = rows.reshape(shape)
+    sample = {"family": fam, "x": x0.tolist(), "vseed": vseed}
+    try:
+        y0 = onp.asarray(f(onp, x0))
+    except Exception as e:
+        return Outcome("numpy_rejects", detail=str(e)[:100], sample=sample)
+    if not onp.all(onp.isfinite(y0)):
+        return Outcome("numpy_rejects", detail="non-finite", sample=sample)
+    g = values.direction(vseed, y0.shape, 53)
+    phi_np = lambda x: onp.sum(g * f(onp, x))
+    phi_ag = lambda x: anp.sum(g * f(anp, x))
+    c.features.update(family=fam)
+    return second_order_check(phi_ag, phi_np, x0, x0, vseed, 0.02, sample, lambda kind: f"C07|zero_entries|{fam}|{kind}", json.dumps([fam, x0.tolist()]),
+                              ["zero_entries"])
+
+
 def tests():
     out = []
     for name, t in sorted(TEMPLATES.items()):
         out.append(Test("hvp:" + name, partial(_body, t), quick=50 * t.weight, thorough=400 * t.weight, shard_size=100))
     out.append(Test("hvp:programs", _prog_body, quick=400, thorough=6000, shard_size=100))
     out.append(Test("mixed_partials", mixed_body, quick=400, thorough=3000, shard_size=100))
+    out.append(Test("zero_entries", zero_entries_body, quick=1500, thorough=10000, shard_size=150))
     out.append(Test("order3", partial(high_order_body, 3), quick=300, thorough=5000, shard_size=100))
     out.append(Test("order4", partial(high_order_body, 4), quick=150, thorough=3000, shard_size=60))
     return out
